@@ -8,16 +8,16 @@ HOME = os.path.dirname(os.path.dirname(os.path.abspath(__file__)))
 
 # id -> (level, technique, level text, level note, design section)
 T = {
- 'C01': ('exploration', 'Hypothesis-generated creation inputs + exhaustive type/layout/form grid vs NumPy reference (bit-pattern round-trip, chunklen metamorphic relation)',
+ 'C01': ('exploration', 'Hypothesis-generated creation inputs and creation sequences + exhaustive type/layout/form grids vs NumPy reference (bit-pattern round-trip, chunklen metamorphic relation incl. NumPy-integer chunk lengths, iterator chunks around 4 KiB / 64 KiB)',
          'generated search over dtype x byte order x layout x shape x input form x dtype argument x chunklen against np.asarray/np.full computed independently; bit patterns compared; rejection leaves the parent directory snapshot unchanged',
          'NumPy is the reference; casts NumPy leaves undefined (NaN/out-of-range float->int) are not generated', '4/C01'),
  'C02': ('exploration', 'model-based histories decoded after every step by an independent raw decoder (three-way model = API = raw files) + exhaustive type table',
          'every completed step of generated histories is decoded from the files alone by a decoder that shares no code with Darr and compared with the NumPy model and the API',
          'the decoder implements docs/design.rst + README text; NumPy frombuffer is trusted for reinterpretation', '4/C02'),
- 'C03': ('exploration', 'model-based stateful testing: generated op histories (bounded-exhaustive short + Hypothesis long) in lock-step with a NumPy ndarray model',
+ 'C03': ('exploration', 'model-based stateful testing: generated op histories (bounded-exhaustive short + Hypothesis long; incl. failing appends, sibling objects, delete-and-recreate, lazily observed live handle) in lock-step with a NumPy ndarray model',
          'op histories over append/iterappend/setitem/truncate/mode/reopen compared after every step with an ndarray model on live and fresh handles, prefix bytes compared on the raw file',
          'NumPy concatenate/slicing semantics are the model', '4/C03'),
- 'C04': ('exploration', 'model-based stateful testing of RaggedArray against a list-of-ndarrays model (bounded-exhaustive short + Hypothesis long histories)',
+ 'C04': ('exploration', 'model-based stateful testing of RaggedArray against a list-of-ndarrays model (bounded-exhaustive short + Hypothesis long and grow/shrink/regrow histories; a sample re-run in a child interpreter under the C locale)',
          'generated histories compared after every step with a list-of-arrays model on live and fresh handles, all k and generated iter_arrays triples',
          'Python list slicing / range semantics are the model', '4/C04'),
  'C05': ('exploration', 'invariant over generated ragged histories checked by an independent raw decoder of values/, indices/ and the three JSON files',
@@ -41,13 +41,13 @@ T = {
  'C11': ('exploration', 'complete enumeration of the mutator x state x how-read-only matrix + Hypothesis histories of mode switches; directory snapshot oracle',
          'every cell of {Array,RaggedArray} x state x way of obtaining mode r x mutator must raise and leave the byte snapshot unchanged, then succeed after r+',
          'snapshot compares content, kind and mode bits (mtime ignored)', '4/C11'),
- 'C12': ('exploration', 'Hypothesis-generated index expressions and assignments, differential against NumPy indexing on an in-memory reference; /proc/self/fd and maps observed',
+ 'C12': ('exploration', 'Hypothesis-generated op lists (index reads/writes interleaved with contexts and live iterators of any access mode, mode assignments), differential against NumPy indexing on an in-memory reference; /proc/self/fd and maps observed',
          'generated basic/advanced index reads and writes must match NumPy (value or exception class), be detached copies, be durable in the raw file and leave no descriptor or map open',
          'NumPy indexing is the reference', '4/C12'),
  'C13': ('exploration', 'model-based stateful testing of MetaData against a dict pushed through an independent JSON normaliser (bounded-exhaustive short + Hypothesis long sequences)',
          'op sequences over setitem/update/pop/popitem/del/reopen compared after every step with a dict model through every read accessor on live and fresh handles; file existence iff non-empty',
          'json round-trip semantics of the standard library define the normaliser', '4/C13'),
- 'C14': ('exploration', 'complete enumeration for n<=N plus Hypothesis-generated large values against a brute-force frame-list oracle',
+ 'C14': ('exploration', 'complete enumeration for n<=N plus Hypothesis-generated large values and ask-change-ask histories against a brute-force frame-list oracle',
          'iterindices/iterchunks/fit_frames compared with a while-loop definition of the frames for every parameter tuple up to a bound, invalid classes must raise ValueError',
          'none beyond NumPy slicing for chunk contents', '4/C14'),
  'C15': ('exploration', 'Hypothesis-generated sources/targets: copy equals astype reference, independence under post-copy mutation (snapshots), archive extraction byte-identical',
@@ -62,10 +62,10 @@ T = {
  'C18': ('exploration', 'complete single-field corruption matrix + Hypothesis/atheris mutated descriptors; must-raise oracle and open-implies-raw-decoder-agrees invariant',
          'every single-field corruption and size mismatch must make Array/RaggedArray/open raise, delete/truncate by path raise TypeError with snapshot unchanged',
          'validity of a descriptor is judged by the independent decoder', '4/C18'),
- 'C19': ('exploration', 'bounded-exhaustive + Hypothesis-generated interleavings of generator/context/read/write actions, each run in a forked child against an in-memory model',
+ 'C19': ('exploration', 'bounded-exhaustive + Hypothesis-generated interleavings of generator/context/read/write actions (four generator parameter sets, writes next to a generator position), each run in a forked child against an in-memory model',
          'schedules of iterchunks generators, contexts, reads and writes on one Array run in forked children; crash, wrong value, lost write or leaked descriptor is a violation',
          'single-threaded interleavings only; the harness owns the schedule', '4/C19'),
- 'C20': ('exploration', 'complete method x protected target x spelling x mode matrix + generated user-file round-trips (+ atheris path fuzzing); snapshot oracle',
+ 'C20': ('exploration', 'complete method x protected target x spelling x mode x way-of-opening matrix + generated user-file round-trips, also in a child interpreter under the C locale (+ atheris path fuzzing); snapshot oracle',
          'every public DataDir mutator with every spelling of every protected name must raise OSError and leave the snapshot unchanged; user files round-trip',
          'spellings are resolved relative to the array directory', '4/C20'),
 }
@@ -102,7 +102,7 @@ def main():
             'add_only': True,
         },
         'engines': [{'name': 'pbt', 'path': 'vlib/', 'serves_properties': [c['property_id'] for c in checks],
-                     'kind_free_text': 'Hypothesis 6.168 (seeded, spec-first strategies, shrinking), bounded-exhaustive enumeration over 16 forked shards, fault injection via RLIMIT_FSIZE/settrace, atheris for byte-level fuzzing'}],
+                     'kind_free_text': 'Hypothesis 6.168 (seeded, spec-first strategies, shrinking), bounded-exhaustive enumeration over 16 forked shards, fault injection via RLIMIT_FSIZE/settrace, atheris for byte-level fuzzing, child interpreters under another locale (vlib/envrun.py), crash isolation (a case that kills its worker is re-run in a forked child and reported)'}],
         'checks': checks,
         'not_applicable': na,
         'notes': 'Each check: replays the committed regression corpus replays/<ID>/ first, then the generated search; exit 2 = harness problem/inconclusive, never a violation. DARR_SRC=<dir> points a check at a scratch copy (mutation testing). known_findings.json lists open/fixed findings.',
